@@ -204,8 +204,16 @@ class Ctx:
             mk = os.path.join(COQ, "Makefile")
             if write_coqproject() or not os.path.exists(mk):
                 return False
-            rc, out, err = run(["make", "-q"], 300, cwd=COQ)
-            return rc == 0
+            # (make -q is useless here: coq_makefile's recursive structure always reports work)
+            newest_dep = 0.0
+            for sub in ("generated", "theories"):
+                d = os.path.join(COQ, sub)
+                for f in os.listdir(d):
+                    if f.endswith(".v"):
+                        vo = os.path.join(d, f + "o")
+                        if not os.path.exists(vo) or os.path.getmtime(vo) < os.path.getmtime(os.path.join(d, f)):
+                            return False
+            return True
 
         fcntl.flock(self._lock, fcntl.LOCK_SH)
         changed, info = regenerate(write=False)
